@@ -113,7 +113,7 @@ EXTRA_SPECS = [
     ('dict', (('k1', ('int', None, None)),)), ('ddict', 'k.*', ('int', None, 3)),
     ('union', (('frozen', ('int', None, None), 1), ('str',))),
     ('union', (('int', 2, None), ('bool',))), ('bool',),
-    ('union', (('int', None, None), ('str',), ('float', None, None))), ('noneable', ('union', (('int', None, None), ('str',)))),
+    ('union', (('int', None, None), ('str',), ('float', None, None))), ('union?', (('int', None, None), ('str',))),
 ]
 
 
@@ -125,8 +125,8 @@ def universe(ctx):
   seen = set()
   for d in g:
     for t in S.pool(d):
-      if t not in seen:
-        seen.add(t)
+      if repr(t) not in seen:          # by text: True and 1 (equal, same hash) are different candidates
+        seen.add(repr(t))
         toks.append(t)
   return g, toks
 
@@ -265,9 +265,13 @@ def pair_item(rec, i):
     if bad is not None:
       # a typed list whose plain contents the base accepts is refused only because of the spec it carries: that is the
       # compatibility gap between Enum and the number spec it extends, whatever else the specs contain
+      # a constant key of the extension that the base only covers through a dynamic key keeps its own (looser) rules
+      const_under_dynamic = (ca[0] == 'dict' and cb[0] == 'ddict' and isinstance(bad, tuple) and bad and bad[0] == 'D'
+                             and any(__import__('re').fullmatch(cb[1], k) for k, _ in ca[1] if isinstance(k, str)))
       carried = (isinstance(bad, tuple) and bad and bad[0] == 'TL' and enum_extends_number(a_d, b_d)
                  and accepts(S.mk(b_d), ('L',) + tuple(bad[2:]))[0] == 'ok')
-      cause = ('enum-extends-number' if carried else
+      cause = ('const-key-under-base-dynamic-key' if const_under_dynamic else
+               'enum-extends-number' if carried else
                'frozen-value-not-revalidated' if has_frozen(a_d) else
                'enum-extends-number' if enum_extends_number(a_d, b_d) else f'{kind2(a_d)}~{kind2(b_d)}')
       rec.viol(f'L4-extended-accepts-more/{cause}',
